@@ -5,7 +5,7 @@ From Saml Require Import Base.Bytes Idp.FactTypes Gen.Facts Idp.Sso Idp.Logout I
 From Saml Require Import Idp.BuilderTypes Idp.Builder Xml.Unmarshal Idp.AuthnOf Idp.RequestsOf.
 From Saml Require Import Codec.Base64 Core.WireCodec Core.DecodeVia.
 From Saml Require Import Idp.BuilderTypes Idp.Builder Idp.BuiltDoc.
-From Saml Require Idp.AttrRefine.
+From Saml Require Idp.AttrRefine Gen.Pure Core.TimeCheck.
 From Saml Require Import Xml.SchemaTypes Xml.Schema Gen.Schema Xml.SamlSpec.
 
 Definition reply_msg (r : lreply) : option lmsg := match r with LBody m => Some m | LPost _ _ m => Some m | LHttp _ => None end.
@@ -140,6 +140,14 @@ Theorem C13_response_refines_model : forall reqid url issuer id1 rest issue unti
        AttrRefine.opt_str (at_ d ["Issuer"; "Text"]%string) = lm_issuer M /\ AttrRefine.opt_str (at_ d ["Destination"%string]) = lm_destination M).
 Proof. exact AttrRefine.logout_message_refines. Qed.
 
+(** the logout handler's time check is the same generated function, applied to the request's IssueInstant and NotOnOrAfter
+    with the configured layout (facts of logout.go): no error exactly when time_valid holds (LTTime of the logout model) *)
+Theorem C13_time_check_from_source :
+  (forall now parse nb noa layout,
+     goerr_is_nil (Pure.checkIfRequestTimeIsStillValid now parse nb noa layout) = time_valid now (TimeCheck.inst_of parse layout nb) (TimeCheck.inst_of parse layout noa)) /\
+  logout_time_call = [("arg0", "thunk:logoutRequest.IssueInstant"); ("arg1", "thunk:logoutRequest.NotOnOrAfter"); ("arg2", "p.TimeFormat")]%string.
+Proof. split; [exact TimeCheck.time_check_bridge|reflexivity]. Qed.
+
 Print Assumptions C13_success_iff.
 Print Assumptions C13_echo.
 Print Assumptions C13_target.
@@ -150,3 +158,4 @@ Print Assumptions C13_built_response.
 Print Assumptions C13_codec.
 Print Assumptions C13_trailing_content_refused.
 Print Assumptions C13_response_refines_model.
+Print Assumptions C13_time_check_from_source.
